@@ -239,8 +239,8 @@ static std::string extras(SP& s)
       o << "sync=" << (s.areLPsInSync(true, true, true) ? 1 : 0);
       o << " nnzR=" << s._realLP->nNzos() << " nnzQ=" << s._rationalLP->nNzos();
       // the scaling-exponent arrays of the rational LP must cover its rows / columns (removals move their entries)
-      o << " sxQ=" << s._rationalLP->LPRowSetBase<Rational>::scaleExp.size() << ","
-        << s._rationalLP->LPColSetBase<Rational>::scaleExp.size();
+      o << " sxQ=" << ((LPRowSetBase<Rational>*)(s._rationalLP))->scaleExp.size() << ","
+        << ((LPColSetBase<Rational>*)(s._rationalLP))->scaleExp.size();
    }
    else
       o << "sync=-";
